@@ -16,7 +16,82 @@ CORPUS = [
 ]
 
 
+def api_close_sessions(chk):
+    """YncaApi / subunit close(): concurrently from two threads, repeatedly, and from inside an update callback"""
+    import random
+
+    from .. import apiscen as AS
+    from .. import dsim
+    from ..subharness import class_info
+
+    infos, _ = class_info()
+    rng = random.Random(chk.seed + 1600)
+    n = 40 if chk.tier == "quick" else 600
+    for k in range(n):
+        rx, present = AS.synthetic_receiver(random.Random(rng.randrange(1 << 30)), [x for x in infos if x[1] in ("SYS", "MAIN", "ZONE2", "TUN", "NETRADIO")])
+        mode = rng.choice(["two-threads", "two-threads", "in-update-callback", "three-times", "during-init"])
+        case = {"mode": mode, "seed": rng.randrange(1 << 30), "switch_prob": rng.choice([0.3, 0.6, 0.9]), "dev_seed": k}
+        s = AS.ApiSession(case["seed"], rx, latency_us=20000, switch_prob=case["switch_prob"])
+        errs = []
+        late_cb = []
+
+        def do_close(api, tag):
+            try:
+                api.close()
+            except dsim.SimAbort:
+                raise
+            except BaseException as e:  # noqa
+                errs.append((tag, type(e).__name__, str(e)[:100]))
+
+        def body(s):
+            api = s.make_api()
+            if mode == "during-init":
+                t = s.sim.spawn(lambda: (s.sleep(rng.choice([0.05, 0.7, 3.0, 8.0])), do_close(api, "other")), "caller1")
+                s.call(api.initialize)
+                t.join()
+                do_close(api, "main")
+                return
+            s.call(api.initialize)
+            if s.exc is not None:
+                return
+            closed_at = []
+            if mode == "in-update-callback" and api.main is not None:
+                def cb(f, v):
+                    if closed_at:
+                        late_cb.append((f, v))
+                    do_close(api, "callback")
+                    closed_at.append(s.sim.now)
+                api.main.register_update_callback(cb)
+                api.main.register_update_callback(lambda f, v: late_cb.append((f, v)) if closed_at else None)
+                s.dev.emit_at(s.sim.now + 1000, b"@MAIN:VOL=-20.0\r\n@MAIN:MUTE=On\r\n")
+                s.sleep(1.0)
+                do_close(api, "main")
+            elif mode == "three-times":
+                for i in range(3):
+                    do_close(api, f"main{i}")
+            else:
+                ts = [s.sim.spawn(lambda i=i: do_close(api, f"t{i}"), f"caller{i + 1}") for i in range(2)]
+                for t in ts:
+                    t.join()
+            s.sleep(1.0)
+
+        s.run(body)
+        chk.count_case({"api_close": case}, True)
+        rep = {"api_close_case": case}
+        if s.sim.failure is not None:
+            chk.violation("C16:api-no-termination", f"YncaApi.close() session never came to rest: {s.sim.failure}", rep)
+        elif errs:
+            chk.violation("C16:api-concurrent-close" if mode == "two-threads" else "C16:api-close-raised", f"YncaApi.close() ({mode}) raised: {errs[0]}", rep)
+        elif s.disconnects:
+            chk.violation("C16:api-disconnect-reported", f"the disconnect callback was invoked by a planned YncaApi.close() ({mode})", rep)
+        elif late_cb:
+            chk.violation("C16:api-callback-after-close", f"an update callback was started after close() had returned ({mode}): {late_cb[0]}", rep)
+        elif s.port is not None and (s.port.is_open or not s.threads_done()):
+            chk.violation("C16:api-not-released", f"after YncaApi.close() ({mode}) port open={s.port.is_open}, threads={[(t.name, t.state) for t in s.sim.threads]}", rep)
+
+
 def run(chk):
+    api_close_sessions(chk)
     return run_life_check(
         chk, "C16", "Properties/C16.v", "close", LS.mon_c16, 400, 8000,
         "states x calling thread x repetitions x schedules: close() from the main thread and from 1-4 caller threads at random points of a command burst, 1-3 times each, concurrently; "
